@@ -468,6 +468,10 @@ class ExprMixin:
             self.note_assumption("enum members (Status.X) are modelled by their string values: `.value` is the identity")
             yield st, obj
             return
+        if isinstance(obj, Val) and isinstance(obj.ty, TRef) and attr == "__class__":
+            self.note_assumption("`self.__class__` is the declared class %s (no instance of a subclass reaches the function)" % obj.ty.cls)
+            yield st, Callable_("class", obj.ty.cls)
+            return
         if isinstance(obj, Val) and isinstance(obj.ty, TRef):
             fty = self.field_type(obj.ty.cls, attr)
             if fty is not None:
